@@ -8,6 +8,7 @@
 package main
 
 import (
+	"os"
 	"fmt"
 	"sort"
 	"strings"
@@ -196,6 +197,36 @@ stages:
   distribution: none
 `
 
+// a users stage, then a rate-driven stage: the rate stage's first evaluation is at the boundary, not before
+// (the users stage's iterations take 10 ms and are not counted: they carry the parameter C09_STAGE=u)
+const usersThenRateYAML = `scenario: s
+limits:
+  max-duration: 5s
+  concurrency: 8
+  max-iterations: 0
+  ignore-dropped: true
+stages:
+- duration: 200ms
+  mode: users
+  parameters:
+    C09_STAGE: u
+- duration: 300ms
+  mode: constant
+  rate: 3/100ms
+  jitter: 0
+  distribution: none
+- duration: 100ms
+  mode: users
+  parameters:
+    C09_STAGE: u
+- duration: 200ms
+  mode: staged
+  stages: 0s:2,200ms:2
+  iteration-frequency: 50ms
+  jitter: 0
+  distribution: none
+`
+
 // fileSuite: consecutive rate-driven stages of a config file. Each stage evaluates at
 // its start and then once per interval until 20 ms before its end; the next stage
 // starts at the nominal boundary, not earlier.
@@ -210,6 +241,8 @@ func fileSuite() hlib.Suite {
 				map[time.Duration]int{0: 2, 100 * ms: 2, 200 * ms: 2, 300 * ms: 3, 400 * ms: 3, 500 * ms: 3, 600 * ms: 1, 650 * ms: 1, 700 * ms: 1, 750 * ms: 1, 800 * ms: 1}},
 			{longIntervalYAML, "f1 run file: constant 5/400ms for 400ms (one tick fits), constant 3/100ms for 300ms; instant bodies, 64 workers",
 				map[time.Duration]int{0: 5, 400 * ms: 3, 500 * ms: 3, 600 * ms: 3}},
+			{usersThenRateYAML, "f1 run file: users for 200ms, constant 3/100ms for 300ms, users for 100ms, staged 2 per 50ms for 200ms; 8 workers; only the rate-driven stages' iterations are listed",
+				map[time.Duration]int{200 * ms: 3, 300 * ms: 3, 400 * ms: 3, 600 * ms: 2, 650 * ms: 2, 700 * ms: 2, 750 * ms: 2}},
 		} {
 			fileCase(r, plan.yaml, plan.input, plan.want)
 		}
@@ -228,7 +261,13 @@ func fileCase(r *hlib.Rec, yaml, input string, want map[time.Duration]int) {
 		rs := &hlib.RunSpec{Mode: "file", FileYAML: yaml, Quiet: true, CompletionTimeout: time.Second}
 		rs.ScenarioFn = func(*f1testing.T) f1testing.RunFn {
 			t0 = vrt.Clock()
-			return func(*f1testing.T) { begins[time.Duration(vrt.Clock()-t0)]++ }
+			return func(*f1testing.T) {
+				if os.Getenv("C09_STAGE") == "u" {
+					vtime.Sleep(10 * time.Millisecond) // an iteration of a users stage: takes time, not listed
+					return
+				}
+				begins[time.Duration(vrt.Clock()-t0)]++
+			}
 		}
 		res := hlib.RunOnce(rs, -1, 0, 10*time.Minute)
 		if res.BuildErr != nil || res.Out.Status != vrt.StOK || t0 < 0 {
